@@ -1,8 +1,9 @@
 import VModel.Sentence
+import VProofs.Lemmas.TokRound
 /-!
 # C03 — Tokenized text format round-trips
 
-Property theorems only (helper lemmas live in `VProofs/Lemmas/Tok*.lean`).
+Property theorems only (helper lemmas live in `VProofs/Lemmas/Tok*.lean`, namespace `V.C03L`).
 -/
 namespace V
 
@@ -20,24 +21,34 @@ structure WFTok (s : Sentence) : Prop where
   tags_len : s.tags.length = s.text.length * s.nTags
   tags_ok : ∀ t, some t ∈ s.tags → t ≠ [] ∧ ∀ c ∈ t, c ≠ '\x00'
 
+/-- `WFTok` and `tokenTagsTrim` are (definitionally) the `TokWF` and `tagsAt` the lemma files work with -/
+theorem WFTok.toL {s : Sentence} (h : WFTok s) : C03L.TokWF s :=
+  ⟨h.text_ne, h.text_nul, h.bounds_len, h.no_unknown, h.tags_len, h.tags_ok⟩
+
+theorem WFTok.ofL {s : Sentence} (h : C03L.TokWF s) : WFTok s :=
+  ⟨h.text_ne, h.text_nul, h.bounds_len, h.no_unknown, h.tags_len, h.tags_ok⟩
+
+theorem tokenTagsTrim_eq : tokenTagsTrim = C03L.tagsAt := rfl
+
 /-- writing any fully segmented sentence and parsing the text again yields the same raw text, the same
 boundaries and, for every token, the same tag sequence up to trailing absent tags -/
 theorem C03_roundtrip (s : Sentence) (h : WFTok s) :
     ∃ w p, s.writeTokenized = .ok w ∧ parseTokenized w = .ok p ∧
       p.text = s.text ∧ p.bounds = s.bounds ∧
       ∀ se ∈ iterTokens s.bounds,
-        tokenTagsTrim p.tags (p.tags.length / p.text.length) se.2 = tokenTagsTrim s.tags s.nTags se.2 := by
-  sorry
+        tokenTagsTrim p.tags (p.tags.length / p.text.length) se.2 = tokenTagsTrim s.tags s.nTags se.2 :=
+  C03L.roundtrip s (WFTok.toL h)
 
 /-- every string the parser accepts yields a sentence in the domain of `C03_roundtrip` -/
 theorem C03_parsed_wf (x : List Char) (p : Parsed) (h : parseTokenized x = .ok p) :
     ∃ s, Sentence.ofParsed p = .ok s ∧ WFTok s := by
-  sorry
+  obtain ⟨s, h1, h2⟩ := C03L.parsed_wf x p h
+  exact ⟨s, h1, WFTok.ofL h2⟩
 
 /-- write-after-parse is idempotent on every string the parser accepts -/
 theorem C03_idempotent (x : List Char) (s : Sentence) (h : Sentence.fromTokenized x = .ok s) :
-    ∃ w s', s.writeTokenized = .ok w ∧ Sentence.fromTokenized w = .ok s' ∧ s'.writeTokenized = .ok w := by
-  sorry
+    ∃ w s', s.writeTokenized = .ok w ∧ Sentence.fromTokenized w = .ok s' ∧ s'.writeTokenized = .ok w :=
+  C03L.idempotent x s h
 
 /-! ## non-vacuity -/
 
